@@ -96,13 +96,17 @@ def verify_unit(args):
             st, solver, ms, model, reason, size = tr.solve(ob, lemmas, timeout_ms=opts['timeout'], fuel=opts['fuel'])
             if st == 'refuted' and opts.get('refute_fuel', 0) > opts['fuel']:
                 # a sat answer under limited unfolding is only a candidate: retry deeper
-                st2, solver2, ms2, model2, reason2, size2 = tr.solve(ob, lemmas, timeout_ms=opts['timeout'] * 3,
-                                                                     fuel=opts['refute_fuel'])
+                st2, solver2, ms2, model2, reason2, size2 = tr.solve(ob, lemmas, timeout_ms=opts['timeout'],
+                                                                     fuel=opts['refute_fuel'], use_cvc5=opts.get('deep', False))
                 ms += ms2
-                if st2 != 'refuted':
-                    st, solver, model, reason = st2, solver2, model2, reason2 + ' (refuted at fuel %d only)' % opts['fuel']
+                if st2 == 'discharged':
+                    st, solver, model, reason = st2, solver2, model2, 'needed fuel %d' % opts['refute_fuel']
+                elif st2 == 'refuted':
+                    model = model2 or model
+                    reason = 'refuted at fuel %d and %d' % (opts['fuel'], opts['refute_fuel'])
                 else:
-                    model = model2
+                    # deeper unfolding gave no verdict: the candidate counter-model of the shallow query stands
+                    reason = 'refuted at fuel %d; fuel %d undecided (%s)' % (opts['fuel'], opts['refute_fuel'], reason2[:80])
             results.append(Result(ob.name, ob.function, ob.kind, st, solver, ms, model, reason, ob.lineno, size,
                                   serves=serves))
     except OutsideSubset as e:
@@ -113,7 +117,7 @@ def verify_unit(args):
     return meta, [r.to_json() for r in results]
 
 
-def verify_family(famname, fuel=2, timeout=10000, jobs=None, only=None, refute_fuel=4, serves=None):
+def verify_family(famname, fuel=2, timeout=10000, jobs=None, only=None, refute_fuel=3, serves=None, deep=False):
     cset = load_family(famname)
     units = []
     for l in cset.lemmas:
@@ -124,7 +128,7 @@ def verify_family(famname, fuel=2, timeout=10000, jobs=None, only=None, refute_f
             units.append((famname, 'function', key))
     if only:
         units = [u for u in units if only in u[2]]
-    opts = dict(fuel=fuel, timeout=timeout, refute_fuel=refute_fuel)
+    opts = dict(fuel=fuel, timeout=timeout, refute_fuel=refute_fuel, deep=deep)
     work = []
     for u in units:
         n = 1
